@@ -12,3 +12,5 @@ OBLIGATIONS = OBLIGATIONS + [K.SEARCH_ORDER, K.CACHE, K.CACHED_SIBS, K.INTERVAL_
 OBLIGATIONS = OBLIGATIONS + [K.REOPEN]
 OBLIGATIONS = OBLIGATIONS + [K.ARG_NAMES]
 OBLIGATIONS = OBLIGATIONS + [K.INTERSECT_TOOL]
+# one run per chromosome (D22): a re-appearing chromosome must be refused, else sections are out of chromosome order
+OBLIGATIONS = OBLIGATIONS + [K.IDMAP]
